@@ -70,17 +70,18 @@ const c08Poison = "\x01POISON\x02SENTINEL\x03"
 
 // c08Probe is the observed call P: a fixed logger, entry and field list.
 type c08Probe struct {
-	c       *c01Case
-	console bool
-	caller  bool
-	sink    *memSink
-	lg      *zap.Logger
-	hooks   *int64
-	ehooks  *int64
-	level   zapcore.Level
-	depth   int
-	late    []*Spec // context added by a With issued as part of every probe call
-	seen    []string
+	c           *c01Case
+	console     bool
+	caller      bool
+	sink        *memSink
+	lg          *zap.Logger
+	hooks       *int64
+	ehooks      *int64
+	level       zapcore.Level
+	depth       int
+	late        []*Spec // context added by a With issued as part of every probe call
+	seen        []string
+	outstanding bool // P is issued as Check ... Write with another Check in between
 }
 
 func newC08Probe(t *rapid.T) *c08Probe {
@@ -89,6 +90,7 @@ func newC08Probe(t *rapid.T) *c08Probe {
 		// the probe's reflection encoder matters only for values with HTML-sensitive characters
 		p.c.site = append(p.c.site, &Spec{Kind: "reflect", Key: "html", V: map[string]string{"k": "<a&b>"}})
 	}
+	p.outstanding = rapid.IntRange(0, 3).Draw(t, "twoChecksOutstanding") == 0
 	p.console = rapid.Bool().Draw(t, "console")
 	p.caller = rapid.Bool().Draw(t, "callerAndStack")
 	p.level = zapcore.Level(rapid.IntRange(-1, 5).Draw(t, "probeLevel"))
@@ -133,6 +135,18 @@ func (p *c08Probe) run() {
 		if p.late != nil {
 			lg = lg.With(fieldsOf(p.late)...) // a derivation made after the history (holds pooled objects while P is encoded)
 		}
+		if p.outstanding {
+			// P as Check + Write with ANOTHER checked entry outstanding in between
+			ce := lg.Check(p.level, p.c.ent.Message)
+			ce2 := c08Audit.Check(zapcore.InfoLevel, "another entry checked while P is outstanding")
+			if ce != nil {
+				ce.Write(fieldsOf(p.c.site)...)
+			}
+			if ce2 != nil {
+				ce2.Write(zap.Int("x", 1))
+			}
+			return
+		}
 		lg.Log(p.level, p.c.ent.Message, fieldsOf(p.c.site)...)
 	})
 }
@@ -170,7 +184,7 @@ func genC08History(t *rapid.T, maxOps int, discard *memSink, probeCfg ...*cfgSpe
 	), zap.AddCaller(), zap.AddStacktrace(zapcore.DebugLevel), zap.WithFatalHook(countHook{new(int64)}), zap.WithPanicHook(countHook{new(int64)}))
 	so := specOpts{faults: true, viaAny: true}
 	for i := 0; i < n; i++ {
-		kind := rapid.SampledFrom([]string{"log", "log", "bigopen", "gc", "poison", "deepstack", "errors", "clone", "terminal", "with", "sinkfail", "encfail", "panicmarshal"}).Draw(t, "historyOp")
+		kind := rapid.SampledFrom([]string{"log", "log", "bigopen", "gc", "poison", "deepstack", "errors", "clone", "terminal", "with", "sinkfail", "encfail", "panicmarshal", "reuse", "bigreflect"}).Draw(t, "historyOp")
 		h.names = append(h.names, kind)
 		switch kind {
 		case "log":
@@ -282,6 +296,24 @@ func genC08History(t *rapid.T, maxOps int, discard *memSink, probeCfg ...*cfgSpe
 				}()
 			})
 			h.pools["json encoder"], h.pools["slice encoder"], h.pools["buffer"] = true, true, true
+		case "reuse":
+			// a CheckedEntry written twice: zap detects and reports the misuse; later entries must not suffer
+			h.ops = append(h.ops, func() {
+				lg := zap.New(zapcore.NewCore(zapcore.NewJSONEncoder(zapcore.EncoderConfig{MessageKey: "m"}), discard, zapcore.DebugLevel), zap.ErrorOutput(discard))
+				if ce := lg.Check(zapcore.InfoLevel, "written twice"); ce != nil {
+					ce.Write(zap.Int("n", 1))
+					ce.Write(zap.Int("n", 2))
+				}
+			})
+			h.pools["checked entry"] = true
+		case "bigreflect":
+			sz := rapid.SampledFrom([]int{1100, 2000, 5000}).Draw(t, "bigReflectUnits")
+			h.ops = append(h.ops, func() {
+				ctx := other.With(zap.Reflect("bigctx", map[string]string{"b": strings.Repeat("0123456789abcdef", sz)}), zap.Reflect("smallctx", 1))
+				ctx.Info("big then small", zap.Reflect("big", []string{strings.Repeat("0123456789abcdef", sz)}), zap.Reflect("small", map[string]int{"a": 1}))
+			})
+			h.big = true
+			h.pools["buffer"], h.pools["json encoder"] = true, true
 		case "encfail":
 			// reflected values that cannot be encoded, as context and at the call site
 			h.ops = append(h.ops, func() {
